@@ -56,7 +56,8 @@ function __shrink() {
 }
 function __grow() {
   __slots.forEach(function (s) {
-    try { if (s instanceof URLSearchParams) for (var i = 0; i < 40; i++) s.append("k" + i, "v"); } catch (e) {}
+    // bounded: a callback that appends on every call of a live iteration would otherwise (legitimately) never end
+    try { if (s instanceof URLSearchParams && s.size < 400) for (var i = 0; i < 40; i++) s.append("k" + i, "v"); } catch (e) {}
   });
 }
 var __vals = [
